@@ -45,6 +45,7 @@ var c02Scenarios = []string{
 	"revoked-credential", "expired-credential", "foreign-subject-credential", "unknown-scope", "unfulfilled-scope",
 	"tamper-signature", "tamper-submission-definition", "tamper-submission-path", "tamper-scope", "tamper-claim",
 	"delayed-past-validity", "duplicate-delivery", "other-audience",
+	"reissued-valid", "reissued-overlong", "reissued-overlong", "reissued-stale", "reissued-not-yet-valid", "reissued-other-domain", "reissued-reused-nonce",
 	"override-iss", "override-client_id", "override-scope", "override-exp", "override-iat", "override-sub", "override-active", "override-cnf",
 }
 
@@ -247,6 +248,79 @@ func c02Body(s *simkit.Sim, rc *simkit.RunCtx) {
 			s.Fail("C02.issue", "issued:duplicate-delivery", "the same token request (same presentation, same nonce) was honoured a second time")
 			return
 		}
+	case "reissued-valid", "reissued-overlong", "reissued-stale", "reissued-not-yet-valid", "reissued-other-domain", "reissued-reused-nonce":
+		// the client's operator makes presentations of its own (same credentials, holder, audience) with other proof
+		// times, and presents them at a seeded moment of their life
+		if !sample.Issued || captured == nil {
+			s.Fail("C02.issue", "refused:valid-before-reissue", "the valid request before the reissued one was refused: %s", sample.Answer)
+			return
+		}
+		form, err := url.ParseQuery(string(captured))
+		if err != nil || !strings.HasPrefix(strings.TrimSpace(form.Get("assertion")), "{") {
+			s.Fail("C02.harness", "reissue", "the captured presentation is not a JSON-LD one")
+			return
+		}
+		now := time.Now()
+		created, expires := now, now.Add(5*time.Second)
+		var wait time.Duration
+		nonce := fmt.Sprintf("reissued-%d", s.D.Decide("nonce", 1000000))
+		wantToken := false
+		switch scenario {
+		case "reissued-valid":
+			wantToken = true
+			created = now.Add(time.Duration(s.D.Decide("created-offset-s", 9)-4) * time.Second) // -4 .. +4 s: within the skew
+			expires = created.Add(time.Duration(1+s.D.Decide("validity-s", 5)) * time.Second)
+		case "reissued-overlong":
+			v := []time.Duration{5500 * time.Millisecond, 6 * time.Second, 8 * time.Second, 30 * time.Second, time.Hour}[s.D.Decide("validity", 5)]
+			expires = created.Add(v)
+			// at once, or near the end of its life
+			wait = []time.Duration{0, v - 4*time.Second, v - time.Second, v + 2*time.Second}[s.D.Decide("present-at", 4)]
+		case "reissued-stale":
+			created = now.Add(-time.Duration(11+s.D.Decide("age-s", 50)) * time.Second)
+			expires = created.Add(5 * time.Second)
+		case "reissued-not-yet-valid":
+			created = now.Add(time.Duration(6+s.D.Decide("ahead-s", 50)) * time.Second)
+			expires = created.Add(5 * time.Second)
+		case "reissued-reused-nonce":
+			var vp struct {
+				Proof struct {
+					Nonce string `json:"nonce"`
+				} `json:"proof"`
+			}
+			_ = json.Unmarshal([]byte(form.Get("assertion")), &vp)
+			if vp.Proof.Nonce == "" {
+				s.Fail("C02.harness", "reissue", "no nonce in the captured presentation")
+				return
+			}
+			nonce = vp.Proof.Nonce
+		}
+		reissued, err := cl.ReissueLDPresentation([]byte(form.Get("assertion")), created, expires, nonce)
+		if err != nil {
+			s.Fail("C02.harness", "reissue", "%v", err)
+			return
+		}
+		form.Set("assertion", string(reissued))
+		if wait > 0 {
+			s.Advance(wait)
+		}
+		path := "/oauth2/vendorA/token"
+		if scenario == "reissued-other-domain" {
+			path = "/oauth2/vendorA2/token" // the presentation names vendorA's server as its domain
+		}
+		code, body := as.CallForm("POST", path, form.Encode())
+		got := world.IsTokenResponse(code, body)
+		sample.Answer += fmt.Sprintf(" | reissued (created %+v, valid %v, presented after %v): %d", created.Sub(now), expires.Sub(created), wait, code)
+		if got && !wantToken {
+			s.Fail("C02.issue", "issued:"+scenario, "an access token was issued for a presentation with the defect %q (proof created %v from now, valid for %v, presented %v later)", scenario, created.Sub(now), expires.Sub(created), wait)
+			return
+		}
+		if !got && wantToken {
+			s.Fail("C02.issue", "refused:reissued-valid", "a reissued presentation without defect (proof created %v from now, valid for %v) was refused: %d %s", created.Sub(now), expires.Sub(created), code, trunc(strings.Join(strings.Fields(string(body)), " "), 400))
+			return
+		}
+		s.Info.Inc("reissued:" + scenario)
+		rc.Nontrivial = true
+		return // (virtual time has moved on: the introspection schedule below belongs to the other scenarios)
 	case "other-audience":
 		if captured != nil {
 			code, body := as.CallForm("POST", "/oauth2/vendorA2/token", string(captured))
